@@ -910,3 +910,137 @@ Proof.
       rewrite overwrite_compose by exact Ho. rewrite firstn_skipn. reflexivity.
 Qed.
 Print Assumptions write_loop_ok.
+
+(* ---------- seek ---------- *)
+Lemma locate_ok l : forall t i0,
+  Forall (fun s => 0 < slen s) l -> t < length (flat_map sbytes l) ->
+  exists k o, locate l t i0 = (i0 + k, o) /\ k < length l /\ o < slen (nthseg l k) /\ pre_len l k + o = t.
+Proof.
+  induction l as [|s l IH]; intros t i0 Hpos Ht; cbn [flat_map length] in Ht; [lia|].
+  inversion Hpos as [|? ? Hs Hpos']; subst.
+  rewrite app_length in Ht.
+  destruct t as [|t'] eqn:Et.
+  - exists 0, 0. cbn [locate]. repeat split; try (cbn [length]; lia).
+    + rewrite Nat.add_0_r. reflexivity.
+    + unfold nthseg; cbn [nth]. exact Hs.
+  - rewrite <- Et in *. assert (Hloc : locate (s :: l) t i0 =
+        if t <? slen s then (i0, t) else locate l (t - slen s) (S i0)).
+    { rewrite Et. reflexivity. }
+    rewrite Hloc. destruct (t <? slen s) eqn:E.
+    + apply Nat.ltb_lt in E. exists 0, t. repeat split; try (cbn [length]; lia).
+      * rewrite Nat.add_0_r. reflexivity.
+      * unfold nthseg; cbn [nth]. exact E.
+    + apply Nat.ltb_ge in E.
+      destruct (IH (t - slen s) (S i0) Hpos') as (k & o & A & B & C & D); [unfold slen in *; lia|].
+      exists (S k), o. repeat split.
+      * rewrite A. f_equal. lia.
+      * cbn [length]. lia.
+      * unfold nthseg in *; cbn [nth]. exact C.
+      * unfold pre_len in *. cbn [firstn flat_map]. rewrite app_length. unfold slen in *. lia.
+Qed.
+
+Lemma seek_valid fn p :
+  WF fn -> off p <= size fn ->
+  (rep p = Some (repacked fn) -> valid fn p) ->
+  valid fn (seek fn p) /\ off (seek fn p) = off p.
+Proof.
+  intros [Hsz Hpos] Hle Hh. unfold seek.
+  destruct (size fn <=? off p) eqn:E1.
+  - apply Nat.leb_le in E1. split; [|reflexivity]. split; cbn [off idx soff].
+    + unfold content in Hsz. rewrite pre_len_all by lia. lia.
+    + right; auto.
+  - apply Nat.leb_gt in E1.
+    assert (Hlt : off p < length (flat_map sbytes (segs fn))) by (unfold content in Hsz; lia).
+    assert (Hloc : valid fn (let '(i, o) := locate (segs fn) (off p) 0 in
+                    {| off := off p; idx := i; soff := o; rep := Some (repacked fn) |}) /\
+                   off (let '(i, o) := locate (segs fn) (off p) 0 in
+                    {| off := off p; idx := i; soff := o; rep := Some (repacked fn) |}) = off p).
+    { destruct (locate_ok (segs fn) (off p) 0 Hpos Hlt) as (k & o & A & B & C & D).
+      rewrite A. cbn [Nat.add]. split; [|reflexivity]. split; cbn [off idx soff]; [lia|left; auto]. }
+    destruct (rep p) as [r|] eqn:Er; [|exact Hloc].
+    destruct (r =? repacked fn) eqn:E2; [|exact Hloc].
+    apply Nat.eqb_eq in E2. subst r. specialize (Hh eq_refl).
+    destruct Hh as [Hoff [[Hi Hso]|[Hi Hso]]].
+    + assert (E3 : (slen (nthseg (segs fn) (idx p)) <=? soff p) = false) by (apply Nat.leb_gt; exact Hso).
+      rewrite E3. split; [|reflexivity]. split; [exact Hoff|left; auto].
+    + exfalso. rewrite Hoff, Hi, Hso in E1. unfold content in Hsz. rewrite pre_len_all in E1 by lia. lia.
+Qed.
+
+(* ---------- Read (one call reads from one segment) ---------- *)
+Lemma skipn_at_valid fn p :
+  valid fn p -> idx p < length (segs fn) ->
+  skipn (off p) (content fn) =
+  skipn (soff p) (sbytes (nthseg (segs fn) (idx p))) ++ flat_map sbytes (skipn (S (idx p)) (segs fn)).
+Proof.
+  intros [Hoff Hc] Hi.
+  assert (Hso : soff p < length (sbytes (nthseg (segs fn) (idx p)))).
+  { destruct Hc as [[_ B]|[A _]]; [exact B|lia]. }
+  unfold content. rewrite (content_split (segs fn) (idx p) Hi) at 1.
+  rewrite Hoff. unfold pre_len.
+  rewrite skipn_app. rewrite skipn_all2 by lia. cbn [app].
+  replace (length (flat_map sbytes (firstn (idx p) (segs fn))) + soff p
+           - length (flat_map sbytes (firstn (idx p) (segs fn)))) with (soff p) by lia.
+  rewrite skipn_app.
+  destruct (le_lt_dec (soff p) (length (sbytes (nthseg (segs fn) (idx p))))) as [Hle|Hgt].
+  - replace (soff p - length (sbytes (nthseg (segs fn) (idx p)))) with 0 by lia. reflexivity.
+  - exfalso. lia.
+Qed.
+
+Ltac splits := repeat (match goal with |- _ /\ _ => apply conj end).
+
+Theorem fn_read_ok fn n p0 :
+  WF fn -> (rep p0 = Some (repacked fn) -> valid fn p0) ->
+  let '(data, p', eof) := fn_read fn n p0 in
+  data = firstn (length data) (skipn (off p0) (content fn)) /\
+  length data <= n /\
+  off p' = off p0 + length data /\
+  (size fn <= off p0 -> data = [] /\ eof = true) /\
+  (off p0 < size fn -> 0 < n -> 0 < length data) /\
+  (off p0 <= size fn -> valid fn p').
+Proof.
+  intros Hwf Hh. assert (Hwf' := Hwf). destruct Hwf' as [Hsz Hpos].
+  unfold fn_read.
+  destruct (le_lt_dec (off p0) (size fn)) as [Hle|Hgt].
+  - destruct (seek_valid fn p0 Hwf Hle Hh) as [Hv Hoff].
+    set (p := seek fn p0) in *.
+    destruct (length (segs fn) <=? idx p) eqn:E1.
+    + apply Nat.leb_le in E1.
+      assert (Hend : idx p = length (segs fn) /\ soff p = 0) by (destruct Hv as [_ [[A _]|[A B]]]; [lia|auto]).
+      assert (off p = size fn).
+      { destruct Hv as [Ho _]. destruct Hend as [A B]. rewrite Ho, A, B. unfold content in Hsz.
+        rewrite pre_len_all by lia. lia. }
+      cbn [length firstn]. splits; auto; try lia.
+    + apply Nat.leb_gt in E1.
+      set (s := nthseg (segs fn) (idx p)) in *.
+      assert (Hso : soff p < slen s) by (destruct Hv as [_ [[_ B]|[A _]]]; [exact B|lia]).
+      set (data := firstn n (skipn (soff p) (sbytes s))).
+      assert (Hsk : length (skipn (soff p) (sbytes s)) = slen s - soff p) by apply skipn_length.
+      assert (Hld : length data = Nat.min n (slen s - soff p)) by (unfold data; rewrite firstn_length; lia).
+      assert (Hpref : data = firstn (length data) (skipn (off p0) (content fn))).
+      { rewrite <- Hoff. rewrite (skipn_at_valid fn p Hv E1). fold s.
+        rewrite firstn_app. replace (length data - length (skipn (soff p) (sbytes s))) with 0 by lia.
+        cbn [firstn]. rewrite app_nil_r. rewrite Hld. unfold data.
+        destruct (le_lt_dec n (slen s - soff p)) as [Hc|Hc].
+        - rewrite Nat.min_l by lia. reflexivity.
+        - rewrite Nat.min_r by lia. rewrite !firstn_all2 by lia. reflexivity. }
+      assert (Hlt : off p0 < size fn).
+      { destruct Hv as [Ho _]. rewrite <- Hoff, Ho. unfold content in Hsz. rewrite Hsz.
+        rewrite (content_split (segs fn) (idx p) E1). rewrite !app_length. unfold pre_len. fold s. unfold slen in *. lia. }
+      destruct (length data =? 0) eqn:E0.
+      * apply Nat.eqb_eq in E0. splits; auto; try lia.
+      * apply Nat.eqb_neq in E0.
+        destruct (soff p + length data =? slen s) eqn:E2.
+        -- apply Nat.eqb_eq in E2. cbn [off]. splits; auto; try lia.
+           intros _. split; cbn [off idx soff].
+           ++ destruct Hv as [Ho _]. rewrite pre_len_S by auto. fold s. lia.
+           ++ destruct (Nat.eq_dec (S (idx p)) (length (segs fn))); [right; auto|left].
+              split; [lia|]. rewrite Forall_forall in Hpos. apply Hpos. apply nthseg_in. lia.
+        -- apply Nat.eqb_neq in E2. cbn [off]. splits; auto; try lia.
+           intros _. split; cbn [off idx soff].
+           ++ destruct Hv as [Ho _]. lia.
+           ++ left. split; [auto|]. fold s. lia.
+  - (* offset beyond EOF *)
+    unfold seek. assert (E : (size fn <=? off p0) = true) by (apply Nat.leb_le; lia). rewrite E.
+    cbn [idx]. rewrite Nat.leb_refl. cbn [length firstn off]. splits; auto; try lia.
+Qed.
+Print Assumptions fn_read_ok.
